@@ -38,6 +38,51 @@ def injected_failure(rng, sv):
     repl = rng.choice(["fail", "(seq none fail)", "(f32 0)", "(map none (key (i32 1)))", "(some fail)"])
     return " ".join(toks[:i] + [repl + tail_closers] + toks[j + 1:])
 
+def directed_histories():
+    """every kind of half-way failure x every kind of probe that takes a pooled buffer, as 2- and 3-call histories on one
+    configuration (cell enumeration; the random histories below rarely line these up)"""
+    N = G.Node
+    hx = C.hx
+    nodes = [N("record", name="R", fields=[("a", 1), ("b", 2), ("c", 3), ("d", 4)]), N("int"),
+             N("record", name="Nn", fields=[("x", 1), ("y", 3)]), N("string"), N("bytes")]
+    sch = G.schema_sx(nodes)
+    def st(name, *fs):
+        return "(struct %s %d%s)" % (hx(name), len(fs), "".join(" (%s %s)" % (hx(f), v) for f, v in fs))
+    def mp(*fs):
+        return "(map none%s)" % "".join(" (entry (str %s) %s)" % (hx(f), v) for f, v in fs)
+    nn_ok = st("Nn", ("x", "(i32 7)"), ("y", "(str %s)" % hx("yy")))
+    nn_rev = st("Nn", ("y", "(str %s)" % hx("yy")), ("x", "(i32 7)"))
+    nn_fail2 = st("Nn", ("x", "(i32 7)"), ("y", "fail"))
+    nn_bad2 = st("Nn", ("x", "(i32 7)"), ("y", "(f32 0)"))
+    nn_rev_fail = st("Nn", ("y", "(str %s)" % hx("yy")), ("x", "fail"))
+    a, c, d = "(i32 1)", "(str %s)" % hx("hi"), "(bytes x0102)"
+    dseq = "(seq none (u8 1) (u8 2) (u8 3))"
+    failures = [
+        ("buffered-field-fails-late", st("R", ("c", c), ("b", nn_fail2), ("a", a), ("d", d)), "none"),
+        ("buffered-field-mismatch-late", st("R", ("c", c), ("b", nn_bad2), ("a", a), ("d", d)), "none"),
+        ("nested-buffered-fails", st("R", ("d", d), ("b", nn_rev_fail), ("a", a), ("c", c)), "none"),
+        ("missing-after-buffering", st("R", ("c", c), ("b", nn_ok), ("d", d)), "none"),
+        ("duplicate-buffered", st("R", ("c", c), ("c", c), ("a", a), ("b", nn_ok), ("d", d)), "none"),
+        ("unknown-after-buffering", st("R", ("d", d), ("c", c), ("zz", a), ("a", a), ("b", nn_ok)), "none"),
+        ("map-form-fails-late", mp(("c", c), ("b", nn_fail2), ("a", a), ("d", d)), "none"),
+        ("seq-to-bytes-fails-late", st("R", ("a", a), ("b", nn_ok), ("c", c), ("d", "(seq none (u8 1) (u8 2) (str %s))" % hx("x"))), "none"),
+        ("seq-to-bytes-buffered-fails-late", st("R", ("d", "(seq none (u8 1) (u8 2) fail)"), ("a", a), ("b", nn_ok), ("c", c)), "none"),
+    ] + [("sink-fails-at-%d" % k, st("R", ("d", dseq), ("c", c), ("b", nn_rev), ("a", a)), str(k)) for k in (0, 1, 2, 3, 5, 6, 9, 12)]
+    probes = [
+        ("reordered", st("R", ("d", d), ("c", c), ("b", nn_rev), ("a", a))),
+        ("seq-to-bytes", st("R", ("a", a), ("b", nn_ok), ("c", c), ("d", dseq))),
+        ("seq-to-bytes-reordered", st("R", ("d", dseq), ("b", nn_rev), ("c", c), ("a", a))),
+        ("map-reordered", mp(("c", c), ("d", d), ("a", a), ("b", nn_rev))),
+        ("in-order", st("R", ("a", a), ("b", nn_ok), ("c", c), ("d", d))),
+    ]
+    out = []
+    for fk, fsv, fb in failures:
+        for pk, psv in probes:
+            out.append(("hist %s 1 (job %s %s) (job %s none)" % (sch, fsv, fb, psv), (sch, 1, psv, [fk])))
+            for fk2, fsv2, fb2 in failures[::3]:
+                out.append(("hist %s 1 (job %s %s) (job %s %s) (job %s none)" % (sch, fsv, fb, fsv2, fb2, psv), (sch, 1, psv, [fk, fk2])))
+    return out
+
 def run(ctx):
     rng = random.Random(ctx["seed"] * 1000003 + 14)
     nh = 500 if ctx["tier"] == "quick" else 20000
@@ -68,6 +113,8 @@ def run(ctx):
         sch = G.schema_sx(nodes)
         lines.append("hist %s %d %s (job %s none)" % (sch, slow, " ".join(jobs), probe))
         meta.append((sch, slow, probe, kinds))
+    for line, m in directed_histories():
+        lines.append(line); meta.append(m)
     impl, model = codec.both(lines)
     fresh = C.run_parallel(C.AVRODRIVE, ["hist %s %d (job %s none)" % (sch, slow, probe) for sch, slow, probe, _ in meta])
     violations, diffs, samples, distinct = [], [], [], set()
